@@ -158,3 +158,126 @@ Example retry_example :
   let g := [(1, [2]); (2, [3]); (3, []); (4, [5]); (5, [4])] in
   process g [1; 2; 3; 4; 5] = ([1; 2; 3], [4; 5]) /\ process g [5; 4; 3; 2; 1] = ([1; 2; 3], [5; 4]).
 Proof. vm_compute. split; reflexivity. Qed.
+
+(* ------------------------------------------------------------------ the loop with the recursion test *)
+Lemma first_missing_none g done n : first_missing g done n = None <-> (forall d, In d (deps g n) -> In d done).
+Proof.
+  unfold first_missing. split.
+  - intros H d Hd. pose proof (find_none _ _ H d Hd) as Hn. apply negb_false_iff in Hn. now apply memn_in.
+  - intro H. destruct (find (fun d => negb (memn d done)) (deps g n)) as [r|] eqn:F; [|reflexivity].
+    apply find_some in F. destruct F as [Hr Hm]. apply negb_true_iff in Hm.
+    apply H, memn_in in Hr. congruence.
+Qed.
+
+Lemma first_missing_some g done n r : first_missing g done n = Some r -> In r (deps g n) /\ ~ In r done.
+Proof.
+  unfold first_missing. intro F. apply find_some in F. destruct F as [Hr Hm]. split; [exact Hr|].
+  apply negb_true_iff in Hm. intro Hin. apply memn_in in Hin. congruence.
+Qed.
+
+(* a derivable node does not depend on itself (Derivable is the LEAST fixed point) *)
+Lemma derivable_not_self g T n : Derivable g T n -> ~ In n (deps g n).
+Proof. induction 1 as [n _ _ IH]. intro H. exact (IH n H H). Qed.
+
+Section RecExact.
+  Variable g : graph.
+  Variable T : list N.
+
+  (* invariants of one round with the exact test *)
+  Lemma round_rec_spec : forall todo done,
+    let r := round_rec N.eqb g done todo in
+    (forall x, In x done -> In x (fst r)) /\
+    (forall x, In x (snd r) -> In x todo) /\
+    (forall x, In x todo -> Derivable g T x -> In x (fst r) \/ In x (snd r)) /\
+    ((forall x, In x done -> Derivable g T x) -> (forall x, In x todo -> In x T) -> forall x, In x (fst r) -> Derivable g T x) /\
+    (length done <= length (fst r))%nat /\
+    (length (fst r) + length (snd r) <= length done + length todo)%nat /\
+    (length (fst r) = length done -> fst r = done /\ forall x, In x todo -> first_missing g done x <> None).
+  Proof.
+    induction todo as [|n t IH]; intro done; cbn [round_rec].
+    - cbn. refine (conj _ (conj _ (conj _ (conj _ (conj _ (conj _ _)))))); auto; try tauto; try lia.
+    - destruct (first_missing g done n) as [r|] eqn:F.
+      + specialize (IH done). cbn zeta in IH. destruct IH as (I1 & I2 & I3 & I4 & I5 & I7 & I6).
+        assert (C4 : (forall x, In x done -> Derivable g T x) -> (forall x, In x (n :: t) -> In x T) -> forall x, In x (fst (round_rec N.eqb g done t)) -> Derivable g T x).
+        { intros Hd Ht. apply I4; [exact Hd|]. intros y Hy. apply Ht. now right. }
+        assert (C6 : length (fst (round_rec N.eqb g done t)) = length done -> fst (round_rec N.eqb g done t) = done /\ forall x, In x (n :: t) -> first_missing g done x <> None).
+        { intro H. destruct (I6 H) as [J1 J2]. split; [exact J1|]. intros x [Hx|Hx]; [subst; congruence|now apply J2]. }
+        cbn zeta. destruct (N.eqb_spec n r) as [E|E].
+        * (* finalised as self-recursive: n depends on itself, hence is not derivable *)
+          subst r. refine (conj I1 (conj _ (conj _ (conj C4 (conj I5 (conj _ C6)))))).
+          -- intros x Hx. right. now apply I2.
+          -- intros x [Hx|Hx] Hder; [|now apply I3]. subst x. exfalso.
+             apply first_missing_some in F. destruct F as [Hself _]. exact (derivable_not_self g T n Hder Hself).
+          -- cbn [length]. lia.
+        * cbn [fst snd]. refine (conj I1 (conj _ (conj _ (conj C4 (conj I5 (conj _ C6)))))).
+          -- intros x [Hx|Hx]; [now left|right; now apply I2].
+          -- intros x [Hx|Hx] Hder; [subst; right; now left|]. destruct (I3 x Hx Hder) as [H|H]; [now left|right; now right].
+          -- cbn [length]. lia.
+      + specialize (IH (n :: done)). cbn zeta in IH. destruct IH as (I1 & I2 & I3 & I4 & I5 & I7 & I6).
+        cbn zeta. refine (conj _ (conj _ (conj _ (conj _ (conj _ (conj _ _)))))).
+        * intros x Hx. apply I1. now right.
+        * intros x Hx. right. now apply I2.
+        * intros x [Hx|Hx] Hder; [subst; left; apply I1; now left|now apply I3].
+        * intros Hd Ht. apply I4; [|intros y Hy; apply Ht; now right].
+          intros y [Hy|Hy]; [subst y|now apply Hd].
+          constructor; [apply Ht; now left|]. intros d Hdep. apply Hd. rewrite first_missing_none in F. now apply F.
+        * cbn [length] in I5. lia.
+        * cbn [length] in I7 |- *. lia.
+        * cbn [length] in I5. intro H. lia.
+  Qed.
+
+  Lemma retry_rec_spec : forall fuel done todo, (length todo < fuel)%nat ->
+    let r := retry_rec N.eqb fuel g done todo in
+    (forall x, In x done -> In x (fst r)) /\
+    (forall x, In x todo -> Derivable g T x -> In x (fst r) \/ In x (snd r)) /\
+    (forall x, In x (snd r) -> first_missing g (fst r) x <> None) /\
+    ((forall x, In x done -> Derivable g T x) -> (forall x, In x todo -> In x T) -> forall x, In x (fst r) -> Derivable g T x).
+  Proof.
+    induction fuel as [|f IH]; intros done todo Hf; [lia|].
+    cbn [retry_rec]. pose proof (round_rec_spec todo done) as R. cbn zeta in R. destruct R as (R1 & R2 & R3 & R4 & R5 & R7 & R6).
+    cbn zeta. destruct (Nat.eqb_spec (length (fst (round_rec N.eqb g done todo))) (length done)) as [E|E].
+    - destruct (R6 E) as [J1 J2]. refine (conj R1 (conj R3 (conj _ R4))).
+      intros x Hx. rewrite J1. apply J2. now apply R2.
+    - assert (Hlt : (length (snd (round_rec N.eqb g done todo)) < f)%nat) by lia.
+      specialize (IH (fst (round_rec N.eqb g done todo)) (snd (round_rec N.eqb g done todo)) Hlt). cbn zeta in IH.
+      destruct IH as (K1 & K2 & K3 & K4). refine (conj _ (conj _ (conj K3 _))).
+      + intros x Hx. apply K1. now apply R1.
+      + intros x Hx Hder. destruct (R3 x Hx Hder) as [H|H]; [left; now apply K1|now apply K2].
+      + intros Hd Ht. apply K4; [now apply R4|]. intros y Hy. apply Ht. now apply R2.
+  Qed.
+End RecExact.
+
+(* with the exact test the loop still handles exactly the derivable nodes ... *)
+Theorem process_rec_sound g todo n : In n (fst (process_rec N.eqb g todo)) -> Derivable g todo n.
+Proof.
+  pose proof (retry_rec_spec g todo (S (length todo)) [] todo (Nat.lt_succ_diag_r _)) as S. cbn zeta in S.
+  destruct S as (_ & _ & _ & S4). apply S4; [intros x []|auto].
+Qed.
+
+Theorem process_rec_complete g todo n : Derivable g todo n -> In n (fst (process_rec N.eqb g todo)).
+Proof.
+  pose proof (retry_rec_spec g todo (S (length todo)) [] todo (Nat.lt_succ_diag_r _)) as S. cbn zeta in S.
+  fold (process_rec N.eqb g todo) in S. destruct S as (_ & S2 & S3 & _).
+  intro D. induction D as [n Hin Hd IH].
+  destruct (S2 n Hin (der g todo n Hin Hd)) as [H|H]; [exact H|].
+  exfalso. apply (S3 n H). apply first_missing_none. exact IH.
+Qed.
+
+(* ... hence is independent of the order of the to-do list, *)
+Theorem rec_exact_order_independent g todo todo' : Permutation todo todo' ->
+  forall n, In n (fst (process_rec N.eqb g todo)) <-> In n (fst (process_rec N.eqb g todo')).
+Proof.
+  intros Hp n. split; intro H.
+  - apply process_rec_complete. eapply derivable_perm; [|apply process_rec_sound; exact H].
+    intros x Hx. eapply Permutation_in; eassumption.
+  - apply process_rec_complete. eapply derivable_perm; [|apply process_rec_sound; exact H].
+    intros x Hx. eapply Permutation_in; [apply Permutation_sym|]; eassumption.
+Qed.
+
+(* ... whereas a sloppy test (child 1 = Cat is taken for its parent 2 = WildCat) finalises the child when it comes before its parent *)
+Theorem rec_sloppy_refuted : exists self g todo todo' n,
+  Permutation todo todo' /\ In n (fst (process_rec self g todo')) /\ ~ In n (fst (process_rec self g todo)).
+Proof.
+  exists (fun n r => (n =? r) || ((n =? 1) && (r =? 2))), [(1, [2]); (2, [])], [1; 2], [2; 1], 1.
+  split; [apply perm_swap|]. vm_compute. split; [now left|]. intros [H|[]]. discriminate.
+Qed.
